@@ -84,6 +84,7 @@ type stepGenOpts struct {
 	longSteps   bool
 	sigMix      bool
 	handlers    bool
+	outputs     bool // some steps capture a (small) output variable
 }
 
 var durTable = []int{0, 0, 1, 20, 50, 99, 100, 101, 150, 199, 200, 201, 250, 400, 1000}
@@ -147,6 +148,12 @@ func genDag(tp *simrt.Tape, o stepGenOpts) *DagSpec {
 			if chance(tp, 1, 4) {
 				s.SignalOnStop = pick(tp, "SIGINT", "SIGUSR1", "SIGHUP")
 			}
+		}
+		if o.outputs && chance(tp, 1, 5) {
+			// output capture changes how a step's result travels (pipe, reader goroutine, close): its
+			// exit status must still decide its state
+			s.Output = "OUT_" + names[i]
+			s.OutText = "v-" + names[i] + "\n"
 		}
 		if o.allowRepeat && chance(tp, 1, 6) {
 			s.Repeat = true
@@ -397,7 +404,7 @@ func stepsim(t *testing.T, tp *simrt.Tape, opts RunOpts) *Outcome {
 	cfg.TraceOps = opts.Trace
 	cfg.MaxFakeTime = 3 * time.Hour
 	cfg.MaxSteps = 1_500_000
-	g := stepGenOpts{maxSteps: 8, allowRetry: true, allowPre: true, handlers: true}
+	g := stepGenOpts{maxSteps: 8, allowRetry: true, allowPre: true, handlers: true, outputs: true}
 	if opts.Thorough {
 		g.maxSteps = 12
 	}
@@ -980,6 +987,17 @@ func (c *stepCheck) checkOutcome(runsBy map[string][]*StepRun, finalBy map[strin
 			allOK = false
 		default:
 			allOK = false
+		}
+	}
+	// what the step processes themselves say (a label that hides a failed command must not decide the outcome)
+	for i := range d.Steps {
+		if rs := runsBy[d.Steps[i].Name]; len(rs) > 0 {
+			if last := rs[len(rs)-1]; last.EndSeq != 0 && (last.Code != 0 || last.Signaled != "") {
+				if allOK {
+					bump(c.out, "outcome_decided_by_exit_status")
+				}
+				anyFailed, allOK = true, false
+			}
 		}
 	}
 	reported := c.final.Status.String()
